@@ -261,9 +261,14 @@ class EBB3:
             return False
 
         # Special command to enter "future" syntax mode, before using self.command for everything.
-        self.port.write( "CU,10,1\r".encode('ascii')) # Set future syntax mode
-        self.port.readline()   # Ignore response, which may be in legacy or future syntax
-        self.port.reset_input_buffer()                # clear input buffer
+        try:
+            self.port.write( "CU,10,1\r".encode('ascii')) # Set future syntax mode
+            self.port.readline()   # Ignore response, which may be in legacy or future syntax
+            self.port.reset_input_buffer()                # clear input buffer
+        except serial.SerialException:
+            self.record_error(f"Error testing USB connection (port name: {self.port_name})")
+            self.disconnect() # Try to close the port, in case it is open.
+            return False
 
         self.query_nickname()
         if caller is not None:
